@@ -287,6 +287,67 @@ func c12cases(r *vh.Run) []c12case {
 			cs = append(cs, c12case{fam: "cyclic-arg", desc: fmt.Sprintf("%s %s System.Storage.Put", sh.name, wrap), pre: pre, code: put, block: true})
 		}
 	}
+	// (b3) amplification: a seed value, then a short body repeated K times.  Bodies: every opcode sequence of
+	// length <=3 over a copy/combine alphabet, and the "new container holding f copies of the previous value"
+	// templates (the cost of a step may grow with the value built so far: clone limits, size limits, depth
+	// limits are what keeps K cheap opcodes from turning into 2^K work)
+	{
+		seeds := []c12shape{
+			{"int1", []byte{byte(neovm.PUSH1)}},
+			{"bytes6", c12pushBytes([]byte("aaabbb"))},
+			{"struct0", []byte{byte(neovm.PUSH0), byte(neovm.NEWSTRUCT)}},
+			{"struct1", []byte{byte(neovm.PUSH1), byte(neovm.NEWSTRUCT)}},
+			{"array0", []byte{byte(neovm.PUSH0), byte(neovm.NEWARRAY)}},
+			{"array1", []byte{byte(neovm.PUSH1), byte(neovm.NEWARRAY)}},
+			{"map0", []byte{byte(neovm.NEWMAP)}},
+		}
+		alpha := []neovm.OpCode{neovm.DUP, neovm.OVER, neovm.SWAP, neovm.CAT, neovm.ADD, neovm.MUL, neovm.SHL, neovm.APPEND, neovm.PUSH1, neovm.PUSH2, neovm.PACK, neovm.NEWSTRUCT, neovm.NEWARRAY}
+		var bodies [][]byte
+		for _, a := range alpha {
+			bodies = append(bodies, []byte{byte(a)})
+			for _, b := range alpha {
+				bodies = append(bodies, []byte{byte(a), byte(b)})
+				for _, c := range alpha {
+					bodies = append(bodies, []byte{byte(a), byte(b), byte(c)})
+				}
+			}
+		}
+		nBytes := len(bodies)
+		// container templates: [v] -> [c] where c is a fresh container with f copies/references of v
+		for _, mk := range []neovm.OpCode{neovm.NEWSTRUCT, neovm.NEWARRAY} {
+			for f := 1; f <= 3; f++ {
+				b := []byte{byte(neovm.PUSH0), byte(mk)}
+				for i := 0; i < f; i++ {
+					b = append(b, byte(neovm.DUP), byte(neovm.PUSH2), byte(neovm.PICK), byte(neovm.APPEND))
+				}
+				bodies = append(bodies, append(b, byte(neovm.NIP)))
+			}
+		}
+		for f := 1; f <= 2; f++ { // map with f entries holding v
+			b := []byte{byte(neovm.NEWMAP)}
+			for i := 0; i < f; i++ {
+				b = append(b, byte(neovm.DUP), byte(neovm.PUSH1)+byte(i), byte(neovm.PUSH3), byte(neovm.PICK), byte(neovm.SETITEM))
+			}
+			bodies = append(bodies, append(b, byte(neovm.NIP)))
+		}
+		// [v] -> [v] after storing a copy of v into its own slot 0 / appending it to itself
+		bodies = append(bodies, []byte{byte(neovm.DUP), byte(neovm.DUP), byte(neovm.APPEND)})
+		bodies = append(bodies, []byte{byte(neovm.DUP), byte(neovm.PUSH0), byte(neovm.PUSH2), byte(neovm.PICK), byte(neovm.SETITEM)})
+		for _, sd := range seeds {
+			for bi, body := range bodies {
+				for _, k := range []int{12, 48} {
+					if k == 12 && bi < nBytes {
+						continue // the byte-sequence bodies run at the larger repetition count only
+					}
+					code := []byte{}
+					for i := 0; i < k; i++ {
+						code = append(code, body...)
+					}
+					cs = append(cs, c12case{fam: "amplify", desc: fmt.Sprintf("%s then (%x) x%d", sd.name, body, k), pre: sd.code, code: code, block: bi >= nBytes})
+				}
+			}
+		}
+	}
 	// (c) every method of every native contract with structured argument strings
 	fields := [][]byte{{}, {0}, {1}, vAcct(0).Address[:], vAcct(1).Address[:], {1, 0, 0, 0, 0, 0, 0, 0}, c12rep(0xff, 9), []byte("did:ont:" + vAcct(1).Address.ToBase58())}
 	var argsets [][][]byte
